@@ -75,6 +75,22 @@ CASES = [
                                  "            for recording in obj.recordings\n        ]\n",
                                  "        recording_objects = []\n        for member in obj.recordings:\n"
                                  "            recording_objects.append(self.recording_adapter.to_aoef(member))\n")]),
+    ("R11-own-error-class-for-outside-recordings", "rewrite", [
+        (REC, SAVE, "        path = obj.path\n        if self.audio_dir is not None:\n            try:\n"
+                    "                path = Path(obj.path).relative_to(self.audio_dir)\n            except ValueError as error:\n"
+                    "                raise LookupError(f\"{obj.path} is not inside the audio directory\") from error\n")]),
+    ("R12-load-join-via-purepath-parts", "rewrite", [
+        (REC, LOAD, "        path = obj.path\n        if self.audio_dir is not None:\n"
+                    "            path = Path(self.audio_dir, *obj.path.parts)\n")]),
+    ("R13-paths-handed-to-pydantic-as-strings", "rewrite", [
+        (REC, SAVE, "        path = obj.path\n        if self.audio_dir is not None:\n"
+                    "            path = str(Path(obj.path).relative_to(self.audio_dir))\n"),
+        (REC, LOAD, "        path = str(obj.path)\n        if self.audio_dir is not None:\n"
+                    "            path = str(self.audio_dir / obj.path)\n")]),
+    ("R14-document-written-with-json-dumps-ascii", "rewrite", [
+        (INIT, WRITE, "    aoef_object = to_aeof(obj, audio_dir=audio_dir)\n    import json\n\n"
+                      "    payload = aoef_object.model_dump(mode=\"json\", exclude_none=True, exclude=exclude)\n"
+                      "    path.write_text(json.dumps(payload, ensure_ascii=True, indent=2), encoding=\"utf-8\")\n")]),
     # ---------------------------------------------------------------- mutants
     ("M1-save-resolves-both-paths", "mutant", [
         (REC, SAVE, "        path = obj.path\n        if self.audio_dir is not None:\n"
